@@ -146,8 +146,8 @@ theorem numChar_plain {c : Char} (h : numChar c = true) :
     have hne : ∀ d : Char, (d.val.toNat < 48 ∨ 57 < d.val.toNat) → c ≠ d := by
       intro d hd e; subst e; omega
     refine ⟨?_, hne _ (by decide), hne _ (by decide), hne _ (by decide), hne _ (by decide)⟩
-    simp only [isWs, Bool.or_eq_false_iff, beq_eq_false_iff_ne]
-    refine ⟨⟨⟨⟨⟨⟨⟨⟨⟨⟨?_, ?_⟩, ?_⟩, ?_⟩, ?_⟩, ?_⟩, ?_⟩, ?_⟩, ?_⟩, ?_⟩, ?_⟩ <;> exact hne _ (by decide)
+    have e : c.toNat = c.val.toNat := rfl
+    exact isWs_false_of_ascii (by omega) (by omega)
   rcases h with ((((((h | h) | h) | h) | h) | h) | h)
   · exact hd c h
   all_goals first
